@@ -186,6 +186,7 @@ func runPoolEscape(rc *RuleCtx) {
 	if len(gs) < 8 || len(ps) < 8 {
 		broken("POOLESCAPE: only %d getters / %d putters discovered", len(gs), len(ps))
 	}
+	aliasRet := aliasReturnSummary(w)
 	for _, fn := range w.Funcs {
 		if fn.Blocks == nil || getters[fn] {
 			continue
@@ -251,12 +252,26 @@ func runPoolEscape(rc *RuleCtx) {
 					case *ssa.ChangeType:
 						nv = u
 					case *ssa.Convert:
-						nv = u
+						if !copyingConvert(u) {
+							nv = u
+						}
 					case *ssa.Extract:
 						nv = u
 					case *ssa.Call:
-						if cal := u.Call.StaticCallee(); cal != nil && len(u.Call.Args) > 0 && u.Call.Args[0] == v && (cal.Name() == "RawBuf" || cal.Name() == "Bytes") {
-							nv = u
+						if cal := u.Call.StaticCallee(); cal != nil {
+							if len(u.Call.Args) > 0 && u.Call.Args[0] == v && (cal.Name() == "RawBuf" || cal.Name() == "Bytes") {
+								nv = u
+							}
+							n := shortName(cal)
+							if n == "internal/rt.Mem2Str" || n == "internal/rt.Str2Mem" || cal.String() == "errors.New" {
+								nv = u // zero-copy view / a value that keeps the string
+							}
+							// repo function whose result aliases the parameter this value is passed for
+							for ai, a := range u.Call.Args {
+								if a == v && aliasRet[cal][ai] {
+									nv = u
+								}
+							}
 						}
 					}
 					if nv != nil && !derived[nv] && aliasType(nv.Type()) {
@@ -310,6 +325,16 @@ func runPoolEscape(rc *RuleCtx) {
 								badPos = x.Pos()
 							}
 						}
+					case *ssa.Call:
+						// handing a derived slice/string to caller-supplied code (interface method) lets it be retained
+						if x.Call.IsInvoke() {
+							for _, a := range x.Call.Args {
+								if derived[a] && a != o && aliasType(a.Type()) && bad == "" {
+									bad = "a value derived from the pooled object is handed to the caller-supplied " + x.Call.Method.Name() + "(), which may retain it"
+									badPos = x.Pos()
+								}
+							}
+						}
 					}
 				}
 			}
@@ -330,6 +355,13 @@ func runPoolEscape(rc *RuleCtx) {
 							}
 						}
 						if isPut {
+							// a second, different Put of the same object reachable after the first one: double free
+							for _, p2 := range puts {
+								if p2 == ins && ins != put && bad == "" {
+									bad = "the pooled object is returned to the pool twice on one path (second Put at " + w.relPos(ins.Pos()) + "): two later Gets will share it"
+									badPos = ins.Pos()
+								}
+							}
 							continue
 						}
 					}
@@ -349,4 +381,92 @@ func runPoolEscape(rc *RuleCtx) {
 			}
 		}
 	}
+}
+
+// copyingConvert: string([]byte) and []byte(string) copy their operand.
+func copyingConvert(c *ssa.Convert) bool {
+	isStr := func(t types.Type) bool {
+		b, ok := t.Underlying().(*types.Basic)
+		return ok && b.Info()&types.IsString != 0
+	}
+	isBytes := func(t types.Type) bool {
+		sl, ok := t.Underlying().(*types.Slice)
+		return ok && types.Identical(sl.Elem().Underlying(), types.Typ[types.Byte])
+	}
+	return (isStr(c.Type()) && isBytes(c.X.Type())) || (isBytes(c.Type()) && isStr(c.X.Type()))
+}
+
+// aliasReturnSummary: repo function -> parameter indexes (receiver = 0) whose memory a result may alias
+// (a result derives from the parameter through loads, fields, re-slices, zero-copy casts, errors.New).
+func aliasReturnSummary(w *World) map[*ssa.Function]map[int]bool {
+	out := map[*ssa.Function]map[int]bool{}
+	changed := true
+	for round := 0; changed && round < 4; round++ {
+		changed = false
+		for _, fn := range w.Funcs {
+			if fn.Blocks == nil {
+				continue
+			}
+			for pi, p := range fn.Params {
+				if !aliasType(p.Type()) || out[fn][pi] {
+					continue
+				}
+				derived := map[ssa.Value]bool{p: true}
+				work := []ssa.Value{p}
+				for len(work) > 0 {
+					v := work[len(work)-1]
+					work = work[:len(work)-1]
+					refs := v.Referrers()
+					if refs == nil {
+						continue
+					}
+					for _, r := range *refs {
+						var nv ssa.Value
+						switch u := r.(type) {
+						case *ssa.UnOp, *ssa.FieldAddr, *ssa.Field, *ssa.Slice, *ssa.IndexAddr, *ssa.Phi, *ssa.ChangeType, *ssa.Extract, *ssa.MakeInterface:
+							nv = u.(ssa.Value)
+						case *ssa.Convert:
+							if !copyingConvert(u) {
+								nv = u
+							}
+						case *ssa.Call:
+							if cal := u.Call.StaticCallee(); cal != nil {
+								n := shortName(cal)
+								if n == "internal/rt.Mem2Str" || n == "internal/rt.Str2Mem" || cal.String() == "errors.New" {
+									nv = u
+								}
+								for ai, a := range u.Call.Args {
+									if a == v && out[cal][ai] {
+										nv = u
+									}
+								}
+							}
+						}
+						if nv != nil && !derived[nv] && aliasType(nv.Type()) {
+							derived[nv] = true
+							work = append(work, nv)
+						}
+					}
+				}
+				for _, b := range fn.Blocks {
+					if ret, ok := lastInstr(b).(*ssa.Return); ok {
+						for _, rv := range ret.Results {
+							if derived[rv] && rv != ssa.Value(p) || rv == ssa.Value(p) {
+								if derived[rv] {
+									if out[fn] == nil {
+										out[fn] = map[int]bool{}
+									}
+									if !out[fn][pi] {
+										out[fn][pi] = true
+										changed = true
+									}
+								}
+							}
+						}
+					}
+				}
+			}
+		}
+	}
+	return out
 }
